@@ -480,6 +480,21 @@ package ugo
 //@ property C13
 
 // ---------------------------------------------------------------------------
+// C02 (compile-time side of capture by reference): the free symbol a nested
+// scope gets for a captured variable is a faithful stand-in for the original:
+// same name, same constness (an assignment to a captured constant must stay a
+// compile error), index of the new free-variable slot, link to the original.
+//@ func (*SymbolTable).defineFree
+//@ params st original
+//@ results r
+//@ requires st != nil && original != nil && st.store != nil && len(st.frees) < 1<<30
+//@ ensures[faithful] r != nil && r.Name == original.Name && r.Scope == ScopeFree && r.Constant == original.Constant && r.Original == original
+//@ ensures[slot]     r.Index == old(len(st.frees)) && len(st.frees) == old(len(st.frees))+1 && st.frees[r.Index] == original
+//@ ensures[stored]   specStoredSymbol(st, original.Name) == r
+//@ modifies *
+//@ property C02
+
+// ---------------------------------------------------------------------------
 // C20: scalar values cross the Go boundary unchanged, in both directions.
 
 //@ lemma objectRoundTrip
